@@ -1,85 +1,17 @@
 /-
-  C03 — what the property demands of an observation, written without reference to the
-  generated code: a declarative predicate over the observed results.
+  C03 — the check's entry point.  Ordinary cases (one class, two operands; `Spec/C03Base.lean`) go through
+  `runCheck check` unchanged; cases with `"kind": "script"` (T3; `Spec/C03Script.lean`) compare the real source
+  text of the generated `__eq__` (and of the shared `__ne__` helper) with what the model generator emits.
 -/
-import AttrsModel.Model.C03
+import AttrsModel.Spec.C03Base
+import AttrsModel.Spec.C03Script
 
 namespace Attrs.C03
+open Lean
 
-/-- "When attrs generates equality": distinct field names, no `cmp` mixed with `eq` (that is C15's
-    business), and the class-level arguments / class body are such that equality is generated. -/
-def wf (c : Case) : Bool :=
-  c.fields.all (fun f => (effEq f).isSome) &&
-  (c.fields.map (·.name)).eraseDups.length == c.fields.length &&
-  generates c
-
-/-- every eq-participating field compares truthy -/
-def allEqual (c : Case) : Bool := (c.fields.filter participates).all (fun f => (outcome f).isTruthy)
-
-/-- the first class along an MRO that has the name at all -/
-def resolved (slots : List Slot) : Slot := (slots.find? Slot.present).getD .absent
-
-/-- Python's default once the left operand has declined an operand of another class: a hand-written
-    `__eq__` resolved by the RIGHT operand's class answers; otherwise identity, and the operands differ. -/
-def pyDefaultEq (c : Case) : Res :=
-  match resolved ((rhsMro c).map (·.eq)) with
-  | .user o => Res.ofOutcome o
-  | _ => .F
-
-/-- the same for `!=`: the right operand's hand-written `__ne__`; else the negation of its hand-written
-    `__eq__` (`object.__ne__`, attrs' helper); else "not identical". -/
-def pyDefaultNe (c : Case) : Res :=
-  match resolved ((rhsMro c).map (·.ne)) with
-  | .user o => Res.ofOutcome o
-  | _ =>
-    match resolved ((rhsMro c).map (·.eq)) with
-    | .user o => Res.ofBool (!o.isTruthy)
-    | _ => .T
-
-/-- only participating fields are ever compared, each with `==` and through its key if it has one -/
-def onlyParticipating (c : Case) (tr : List String) : Bool :=
-  tr.all (fun t => (c.fields.filter participates).any (fun f => tag f == t))
-
-/-- one round judged on its own -/
-def specRound (c : Case) (o : Round) : Bool :=
-  if sameClass c.rhs then
-    -- true exactly when every participating comparison is; never NotImplemented
-    o.eqDirect != .NI && o.eqOp != .NI && o.eqDirect != .exc && o.eqOp != .exc &&
-    o.eqDirect.isTruthy == allEqual c &&
-    o.eqOp.isTruthy == allEqual c &&
-    -- != is always the negation (a real bool)
-    o.neDirect == Res.ofBool (!allEqual c) &&
-    o.neOp == Res.ofBool (!allEqual c) &&
-    onlyParticipating c o.trace && onlyParticipating c o.neTrace
-  else
-    -- any other right operand: both methods NotImplemented, nothing compared, Python falls back to its default
-    o.eqDirect == .NI && o.neDirect == .NI &&
-    o.eqOp == pyDefaultEq c && o.neOp == pyDefaultNe c && o.trace == [] && o.neTrace == []
-
-/-- a fault is reached iff every participating field before it is fault-free and compares truthy -/
-def raises : List Field → Bool
-  | [] => false
-  | f :: rest =>
-    match faultOf f with
-    | .none => (outcome f).isTruthy && raises rest
-    | _ => true
-
-/-- the round with faults: if a fault is reached the exception propagates out of all four; otherwise (no
-    fault, or a falsy field stops the chain before it) the round is judged like any other. -/
-def specFirst (c : Case) (o : Round) : Bool :=
-  if sameClass c.rhs && raises (c.fields.filter participates) then
-    o.eqDirect == .exc && o.neDirect == .exc && o.eqOp == .exc && o.neOp == .exc &&
-    onlyParticipating c o.trace && onlyParticipating c o.neTrace
-  else specRound c o
-
-/-- the first round with its faults, the later round ON ITS OWN (whatever happened before), no residue -/
-def spec (c : Case) (o : Obs) : Bool :=
-  specFirst c o.first && specRound c o.again && o.residue == []
-
-def known (_ : Case) : List String := []
-
-def check : Check Case Obs := { model := model, spec := spec, wf := wf, known := known }
-
-def handle := runCheck check
+def handle (case obs : Json) : Except String Reply :=
+  match case.getObjValAs? String "kind" with
+  | .ok "script" => Script.handle case obs
+  | _ => runCheck check case obs
 
 end Attrs.C03
